@@ -4,7 +4,10 @@ node delivers, in order and on demand, exactly the successes the specification l
 -/
 import RegexVerif.Lemmas.CompileStep
 import RegexVerif.Lemmas.CompileLoop
+import RegexVerif.Lemmas.CompileLoopR
 import RegexVerif.Lemmas.CompileCut
+import RegexVerif.Lemmas.CompileGLoop
+import RegexVerif.Lemmas.CompileRef
 
 namespace RegexVerif.Compile
 open RegexVerif.VM RegexVerif.Code RegexVerif.Writer RegexVerif.Generated.Opcodes RegexVerif RegexVerif.Spec
@@ -21,20 +24,18 @@ structure World where
   hstr : X.p.strings = fin.strings.toArray
   hnsets : X.p.nsets = fin.sets.length
   hsl : ∀ g : Nat, X.sl g = (mapCapnum ⟨caps, none⟩ (g : Int)).toNat
-  /-- the text is shorter than the "unbounded" repeat count `MaxInt32` -/
+  /-- the text is not longer than the "unbounded" repeat count `MaxInt32` -/
   hlen : X.se.n ≤ 2147483647
+  /-- the tier up to which trees are considered in this world … -/
+  k : Nat
+  /-- … and from tier 4 (general loops: the iteration counter must stay below `MaxInt32`) on, strictly shorter -/
+  hlenS : 4 ≤ k → X.se.n < 2147483647
+  /-- from tier 6 (groups are read back) on: slots are group numbers, and the engine is not in ECMAScript mode (where
+      a reference to a group without capture matches the empty string; the specification has no such rule) -/
+  hid : 6 ≤ k → ∀ g, X.sl g = g
+  hecma : 6 ≤ k → X.env.ecma = false
 
 def World.cfg (W : World) : Cfg := ⟨W.caps, none⟩
-
-theorem map_eq_flatMap_singleton {α β : Type} (f : α → β) (l : List α) : l.map f = l.flatMap (fun x => [f x]) := by
-  induction l with
-  | nil => rfl
-  | cons x xs ih => simp [ih]
-
-theorem flatMap_singleton_id {α : Type} (l : List α) : l.flatMap (fun x => [x]) = l := by
-  induction l with
-  | nil => rfl
-  | cons x xs ih => simp [ih]
 
 theorem emitAlt_cons_cons (cfg : Cfg) (a fin : Nat) (tb : Tables) (c d : GoNode) (ds : List GoNode) :
     emitAlt cfg a fin tb (c :: d :: ds) =
@@ -50,17 +51,17 @@ theorem sizeAlt_cons_cons (cfg : Cfg) (c d : GoNode) (ds : List GoNode) :
   simp
 
 /-- the highest tier the simulation lemma covers so far -/
-def maxTier : Nat := 3
+def maxTier : Nat := 8
 
 section main
 variable (W : World)
 
 /-- `Capture`: `Setmark; ⟨body⟩; Capturemark slot -1` around a body that delivers `rs` -/
-theorem capture_delivers {a i : Nat} {T S : List Int} {C : List (Nat × Nat × Nat)} {s : VMState} {g sz : Nat}
+theorem capture_delivers {a i : Nat} {T S : List Int} {v : Int} {C : List (Nat × Nat × Nat)} {s : VMState} {g sz : Nat}
     {body : Code} {rs : List St}
     (hcode : CodeAt W.X.p a ([i0 opSetmark] ++ body ++ [i2 opCapturemark (W.X.sl g : Int) (-1)]))
-    (hsz : codeLen body = sz) (hg : W.X.sl g < W.X.p.capsize) (he : Entry W.X a i T S C s)
-    (hbody : ∀ s1, Entry W.X (a + 1) i ((a : Int) :: T) ((i : Int) :: S) C s1 →
+    (hsz : codeLen body = sz) (hg : W.X.sl g < W.X.p.capsize) (he : Entry W.X a i (T ++ [v]) S C s)
+    (hbody : ∀ s1, Entry W.X (a + 1) i ((a : Int) :: (T ++ [v])) ((i : Int) :: S) C s1 →
       Delivers W.X (a + 1 + sz) ((a : Int) :: T) ((i : Int) :: S) ((i : Int) :: S) C rs s1) :
     Delivers W.X (a + 1 + sz + 3) T S S C
       (rs.map (fun st' => { st' with caps := st'.caps ++ [(g, min i st'.pos, max i st'.pos - min i st'.pos)] })) s := by
@@ -87,36 +88,45 @@ theorem capture_delivers {a i : Nat} {T S : List Int} {C : List (Nat × Nat × N
   · have := Delivers.append (X := W.X) (b := a + 1 + sz + 3) (T := T) (S := S) (S' := S) (C0 := C)
       (F := [(a : Int)]) (setmark_frame hset) (ys := []) _ s1 (by simpa using hbind) ?_
     · simpa using this
-    · intro s'' hf
-      exact setmark_back (by simpa using hf) hset
-  · intro r _ F s' hF he'
-    refine ⟨[((a + 1 + sz : Nat) : Int), (i : Int)], capturemark_frame hcm _, ?_, ?_⟩
+    · intro s'' v' hf
+      exact Delivers.fail (v := v') (setmark_back (by simpa using hf) hset)
+  · intro r _ F s' v' hF he'
+    refine Delivers.cons (v := v') [((a + 1 + sz : Nat) : Int), (i : Int)] (capturemark_frame hcm _) ?_ ?_
     · have := capturemark_leads he' hcm hg hend
       simpa using this
-    · intro s'' hf
-      exact capturemark_back (by simpa using hf) hcm
+    · intro s'' v'' hf
+      exact Delivers.fail (v := v'') (capturemark_back (by simpa using hf) hcm)
+
+variable (hWk : W.k ≤ maxTier)
+include hWk
 
 mutual
 /-- **the simulation lemma**: the code of a node of the fragment delivers the specification's successes of its
     pattern -/
-theorem node_delivers : ∀ (n : GoNode) (a : Nat) (tb : Tables) (pat : Pat),
-    tier n ≤ maxTier → toPat W.TPx false n = some pat → n.ok = true → capsOk W.cfg W.X.p.capsize n = true →
+theorem node_delivers : ∀ (n : GoNode) (d : Bool) (a : Nat) (tb : Tables) (pat : Pat),
+    tier n ≤ W.k → toPat W.TPx d n = some pat → n.ok = true → capsOk W.cfg W.X.p.capsize n = true →
     boundsOk n = true → CodeAt W.X.p a (emitNode W.cfg a tb n).1 → TabExt (emitNode W.cfg a tb n).2 W.fin →
-    ∀ (i : Nat) (T S : List Int) (C : List (Nat × Nat × Nat)) (s : VMState), St.wf W.X.se.n ⟨i, C⟩ → T ≠ [] →
-      Entry W.X a i T S C s → Delivers W.X (a + size W.cfg n) T S S C (m W.X.se pat false ⟨i, C⟩) s
-  | .empty, a, tb, pat, _, hp, _, _, _, _, _, i, T, S, C, s, _, _, he => by
+    ∀ (i : Nat) (T S : List Int) (v : Int) (C : List (Nat × Nat × Nat)) (s : VMState), St.wf W.X.se.n ⟨i, C⟩ →
+      Entry W.X a i (T ++ [v]) S C s → Delivers W.X (a + size W.cfg n) T S S C (m W.X.se pat d ⟨i, C⟩) s
+  | .empty, d, a, tb, pat, _, hp, _, _, _, _, _, i, T, S, v, C, s, _, he => by
     simp only [toPat, Option.some.injEq] at hp
     subst hp
     simp only [size, Nat.add_zero, m]
-    exact Delivers.single (Leads.here he) rfl
-  | .bare t, a, tb, pat, ht, hp, _, _, _, hcode, _, i, T, S, C, s, hwf, _, he => by
+    exact Delivers.single (v := v) (Leads.here he) rfl
+  | .bare t, d, a, tb, pat, ht, hp, _, _, _, hcode, _, i, T, S, v, C, s, hwf, he => by
     simp only [toPat] at hp
     simp only [emitNode] at hcode
-    have hne : ¬ t = opUpdateBumpalong := by
-      intro h; subst h; simp [tier, maxTier] at ht
-    have := bare_delivers W.hrel hwf.1 hp hne he hcode.instr (by simpa using hcode.fetch_end)
-    simpa [size] using this
-  | .char t rtl ci ch, a, tb, pat, _, hp, hok, _, _, hcode, _, i, T, S, C, s, hwf, _, he => by
+    by_cases hne : t = opUpdateBumpalong
+    · subst hne
+      have hpe : pat = .empty := by
+        have : bareToPat W.TPx opUpdateBumpalong = some .empty := rfl
+        rw [this] at hp; exact (Option.some.inj hp).symm
+      subst hpe
+      have := updatebumpalong_delivers he hcode.instr (by simpa using hcode.fetch_end)
+      simpa [size, m] using this
+    · have := bare_delivers (d := d) W.hrel hwf.1 hp hne he hcode.instr (by simpa using hcode.fetch_end)
+      simpa [size] using this
+  | .char t rtl ci ch, d, a, tb, pat, _, hp, hok, _, _, hcode, _, i, T, S, v, C, s, hwf, he => by
     simp only [toPat] at hp
     simp only [emitNode] at hcode
     split at hp
@@ -127,11 +137,11 @@ theorem node_delivers : ∀ (n : GoNode) (a : Nat) (tb : Tables) (pat : Pat),
       have hia := hcode.instr
       have hf : ∃ w, VM.fetch W.X.p (a + 2) = .ok w := by simpa using hcode.fetch_end
       have ht64 : t < 64 := charTypes_lt t (by simpa [GoNode.ok] using hok)
-      have hoper : s.oper = ⟨t, false, false, false, ci⟩ := by
-        rw [he.oper hia]; exact (decode_bits t ht64 false ci).2
+      have hoper : s.oper = ⟨t, rtl, false, false, ci⟩ := by
+        rw [he.oper hia]; exact (decode_bits t ht64 rtl ci).2
       have hb : s.oper.back = false := by rw [hoper]
       have hb2 : s.oper.back2 = false := by rw [hoper]
-      have hrtl : s.oper.rtl = false := by rw [hoper]
+      have hrtl : s.oper.rtl = rtl := by rw [hoper]
       simp only [size]
       split at hp
       · next h1 =>
@@ -149,7 +159,7 @@ theorem node_delivers : ∀ (n : GoNode) (a : Nat) (tb : Tables) (pat : Pat),
             (predOk_notone W.X ch hch) hf
         · cases hp
     · cases hp
-  | .set rtl ci pl, a, tb, pat, _, hp, _, _, _, hcode, hext, i, T, S, C, s, hwf, _, he => by
+  | .set rtl ci pl, d, a, tb, pat, _, hp, _, _, _, hcode, hext, i, T, S, v, C, s, hwf, he => by
     simp only [toPat] at hp
     simp only [emitNode, setKey_eq] at hcode hext
     split at hp
@@ -165,12 +175,12 @@ theorem node_delivers : ∀ (n : GoNode) (a : Nat) (tb : Tables) (pat : Pat),
         subst hp
         have hia := hcode.instr
         have hf : ∃ w, VM.fetch W.X.p (a + 2) = .ok w := by simpa using hcode.fetch_end
-        have hoper : s.oper = ⟨opSet, false, false, false, false⟩ := by
-          rw [he.oper hia]; exact (decode_bits opSet (by decide) false false).2
+        have hoper : s.oper = ⟨opSet, rtl, false, false, false⟩ := by
+          rw [he.oper hia]; exact (decode_bits opSet (by decide) rtl false).2
         have hop : Op.ofNat? s.oper.op = some .set := by rw [hoper]; rfl
         have hb : s.oper.back = false := by rw [hoper]
         have hb2 : s.oper.back2 = false := by rw [hoper]
-        have hrtl : s.oper.rtl = false := by rw [hoper]
+        have hrtl : s.oper.rtl = rtl := by rw [hoper]
         have hget : W.fin.sets[(internKey id tb.sets pl).1]? = some pl := by
           obtain ⟨e, he'⟩ := hext.2
           rw [he']
@@ -179,7 +189,7 @@ theorem node_delivers : ∀ (n : GoNode) (a : Nat) (tb : Tables) (pat : Pat),
         exact caseChar_delivers W.hrel hwf.1 he hia rfl (by simp only [body, hop, modeOf, hb, hb2]) hrtl
           (predOk_set W.hrel W.hnsets hget hrd) hf
     · cases hp
-  | .multi rtl ci str, a, tb, pat, _, hp, _, _, _, hcode, hext, i, T, S, C, s, hwf, _, he => by
+  | .multi rtl ci str, d, a, tb, pat, _, hp, _, _, _, hcode, hext, i, T, S, v, C, s, hwf, he => by
     simp only [toPat] at hp
     simp only [emitNode, strKey_eq] at hcode hext
     split at hp
@@ -197,8 +207,36 @@ theorem node_delivers : ∀ (n : GoNode) (a : Nat) (tb : Tables) (pat : Pat),
       simp only [size]
       exact multi_delivers W.hrel hwf.1 he hia hget hf
     · cases hp
-  | .ref rtl ci g, a, tb, pat, ht, _, _, _, _, _, _, i, T, S, C, s, _, _, _ => by simp [tier, maxTier] at ht
-  | .charloop t rtl ci ch lo hi, a, tb, pat, _, hp, hok, _, hbd, hcode, _, i, T, S, C, s, hwf, _, he => by
+  | .ref rtl ci g, d, a, tb, pat, ht, hp, hok, hcaps, hbd, hcode, hext, i, T, S, v, C, s, hwf, he => by
+    simp only [toPat] at hp
+    simp only [emitNode] at hcode
+    simp only [tier] at ht
+    split at hp
+    · next hc =>
+      simp only [Bool.and_eq_true, beq_iff_eq, decide_eq_true_eq] at hc
+      obtain ⟨hr, hg0⟩ := hc
+      subst hr
+      cases hp
+      have hci : ci = false := by
+        cases ci with
+        | false => rfl
+        | true => have := Nat.le_trans ht hWk; simp [maxTier] at this
+      subst hci
+      have h6 : 6 ≤ W.k := by simpa using ht
+      have hslot := slotOk_iff.1 (by simpa [capsOk] using hcaps : slotOk W.cfg W.X.p.capsize g = true)
+      have hsl : mapCapnum W.cfg g = ((g.toNat : Nat) : Int) := by
+        have h1 := W.hsl g.toNat
+        rw [W.hid h6] at h1
+        have : ((g.toNat : Nat) : Int) = g := by omega
+        rw [this] at h1
+        have h2 : (mapCapnum W.cfg g).toNat = g.toNat := h1.symm
+        omega
+      rw [hsl] at hcode
+      have := ref_delivers W.hrel hwf (W.hid h6) (g := g.toNat) (by omega) (W.hecma h6) he hcode.instr
+        (by simpa using hcode.fetch_end)
+      simpa [size] using this
+    · cases hp
+  | .charloop t rtl ci ch lo hi, d, a, tb, pat, _, hp, hok, _, hbd, hcode, _, i, T, S, v, C, s, hwf, he => by
     simp only [toPat] at hp
     simp only [emitNode] at hcode
     split at hp
@@ -210,17 +248,29 @@ theorem node_delivers : ∀ (n : GoNode) (a : Nat) (tb : Tables) (pat : Pat),
       simp only [boundsOk, Bool.and_eq_true, decide_eq_true_eq] at hbd
       obtain ⟨⟨⟨_, h0⟩, hmn⟩, hn⟩ := hbd
       simp only [size]
-      rcases charloop_families t hty with ⟨h1, h2, h3⟩ | ⟨h1, h2, h3⟩
-      · simp only [h1, if_true] at hcode
-        simp only [h3, Bool.false_eq_true, if_false]
-        exact loopnode_delivers W.hrel W.hlen hwf.1 he (List.mem_append_left _ hty) h2.symm (Or.inl ⟨rfl, rfl⟩) h0 hmn hn
-          hcode (fun _ => predOk_one W.X ch hch)
-      · simp only [h1, Bool.false_eq_true, if_false] at hcode
-        simp only [h3, if_true]
-        exact loopnode_delivers W.hrel W.hlen hwf.1 he (List.mem_append_left _ hty) h2.symm (Or.inr (Or.inl ⟨rfl, rfl⟩)) h0 hmn
-          hn hcode (fun _ => predOk_notone W.X ch hch)
+      cases rtl with
+      | false =>
+        rcases charloop_families t hty with ⟨h1, h2, h3⟩ | ⟨h1, h2, h3⟩
+        · simp only [h1, if_true] at hcode
+          simp only [h3, Bool.false_eq_true, if_false]
+          exact loopnode_delivers W.hrel W.hlen hwf.1 he (List.mem_append_left _ hty) h2.symm (Or.inl ⟨rfl, rfl⟩) h0 hmn hn
+            hcode (fun _ => predOk_one W.X ch hch)
+        · simp only [h1, Bool.false_eq_true, if_false] at hcode
+          simp only [h3, if_true]
+          exact loopnode_delivers W.hrel W.hlen hwf.1 he (List.mem_append_left _ hty) h2.symm (Or.inr (Or.inl ⟨rfl, rfl⟩)) h0 hmn
+            hn hcode (fun _ => predOk_notone W.X ch hch)
+      | true =>
+        rcases charloop_families t hty with ⟨h1, h2, h3⟩ | ⟨h1, h2, h3⟩
+        · simp only [h1, if_true] at hcode
+          simp only [h3, Bool.false_eq_true, if_false]
+          exact loopnode_delivers_rtl W.hrel W.hlen hwf he (List.mem_append_left _ hty) h2.symm (Or.inl ⟨rfl, rfl⟩) h0 hmn hn
+            hcode (fun _ => predOk_one W.X ch hch)
+        · simp only [h1, Bool.false_eq_true, if_false] at hcode
+          simp only [h3, if_true]
+          exact loopnode_delivers_rtl W.hrel W.hlen hwf he (List.mem_append_left _ hty) h2.symm (Or.inr (Or.inl ⟨rfl, rfl⟩)) h0
+            hmn hn hcode (fun _ => predOk_notone W.X ch hch)
     · cases hp
-  | .setloop t rtl ci pl lo hi, a, tb, pat, _, hp, hok, _, hbd, hcode, hext, i, T, S, C, s, hwf, _, he => by
+  | .setloop t rtl ci pl lo hi, d, a, tb, pat, _, hp, hok, _, hbd, hcode, hext, i, T, S, v, C, s, hwf, he => by
     simp only [toPat] at hp
     simp only [emitNode, setKey_eq] at hcode hext
     split at hp
@@ -237,32 +287,40 @@ theorem node_delivers : ∀ (n : GoNode) (a : Nat) (tb : Tables) (pat : Pat),
         simp only [boundsOk, Bool.and_eq_true, decide_eq_true_eq] at hbd
         obtain ⟨⟨h0, hmn⟩, hn⟩ := hbd
         simp only [size]
-        refine loopnode_delivers W.hrel W.hlen hwf.1 he (List.mem_append_right _ hty) (setloop_family t hty).symm
-          (Or.inr (Or.inr ⟨rfl, rfl⟩)) h0 hmn hn hcode (fun hne => ?_)
-        have hcond : (decide (lo > 0) || decide (hi > lo)) = true := by
-          rcases hne with h | h <;> simp [h]
-        rw [if_pos hcond] at hext
-        have hget : W.fin.sets[(internKey id tb.sets pl).1]? = some pl := by
-          obtain ⟨e, he'⟩ := hext.2
-          rw [he']
-          exact get_of_ext (internKey_get tb.sets pl)
-        exact predOk_set W.hrel W.hnsets hget hrd
+        have hpo : (lo > 0 ∨ hi > lo) → PredOk W.X 2 ((internKey id tb.sets pl).1 : Int) (.set cls false) := by
+          intro hne
+          have hcond : (decide (lo > 0) || decide (hi > lo)) = true := by
+            rcases hne with h | h <;> simp [h]
+          rw [if_pos hcond] at hext
+          have hget : W.fin.sets[(internKey id tb.sets pl).1]? = some pl := by
+            obtain ⟨e, he'⟩ := hext.2
+            rw [he']
+            exact get_of_ext (internKey_get tb.sets pl)
+          exact predOk_set W.hrel W.hnsets hget hrd
+        cases rtl with
+        | false =>
+          exact loopnode_delivers W.hrel W.hlen hwf.1 he (List.mem_append_right _ hty) (setloop_family t hty).symm
+            (Or.inr (Or.inr ⟨rfl, rfl⟩)) h0 hmn hn hcode hpo
+        | true =>
+          exact loopnode_delivers_rtl W.hrel W.hlen hwf he (List.mem_append_right _ hty) (setloop_family t hty).symm
+            (Or.inr (Or.inr ⟨rfl, rfl⟩)) h0 hmn hn hcode hpo
     · cases hp
-  | .concat cs, a, tb, pat, ht, hp, hok, hcaps, hbd, hcode, hext, i, T, S, C, s, hwf, hT, he => by
+  | .concat cs, d, a, tb, pat, ht, hp, hok, hcaps, hbd, hcode, hext, i, T, S, v, C, s, hwf, he => by
     simp only [toPat] at hp
-    cases hps : toPatList W.TPx false cs with
+    cases hps : toPatList W.TPx d cs with
     | none => rw [hps] at hp; cases hp
     | some ps =>
       rw [hps] at hp
-      simp only [Option.map_some, Bool.false_eq_true, if_false, Option.some.injEq] at hp
+      simp only [Option.map_some, Option.some.injEq] at hp
       subst hp
       simp only [GoNode.ok, Bool.and_eq_true] at hok
-      exact list_delivers cs a tb ps (by simpa [tier] using ht) hps hok.2 (by simpa [capsOk] using hcaps)
+      rw [m_nestSeq_dir]
+      exact list_delivers cs d a tb ps (by simpa [tier] using ht) hps hok.2 (by simpa [capsOk] using hcaps)
         (by simpa [boundsOk] using hbd) (by simpa [emitNode] using hcode) (by simpa [emitNode] using hext)
-        i T S C s hwf hT he
-  | .alt cs, a, tb, pat, ht, hp, hok, hcaps, hbd, hcode, hext, i, T, S, C, s, hwf, hT, he => by
+        i T S v C s hwf he
+  | .alt cs, d, a, tb, pat, ht, hp, hok, hcaps, hbd, hcode, hext, i, T, S, v, C, s, hwf, he => by
     simp only [toPat] at hp
-    cases hps : toPatList W.TPx false cs with
+    cases hps : toPatList W.TPx d cs with
     | none => rw [hps] at hp; cases hp
     | some ps =>
       rw [hps] at hp
@@ -270,19 +328,38 @@ theorem node_delivers : ∀ (n : GoNode) (a : Nat) (tb : Tables) (pat : Pat),
       subst hp
       simp only [GoNode.ok, Bool.and_eq_true, Bool.not_eq_true'] at hok
       have hne : cs ≠ [] := by intro h; subst h; simp at hok
-      exact alt_delivers cs a (a + sizeAlt W.cfg cs) tb ps hne rfl (by simpa [tier] using ht) hps hok.2
+      exact alt_delivers cs d a (a + sizeAlt W.cfg cs) tb ps hne rfl (by simpa [tier] using ht) hps hok.2
         (by simpa [capsOk] using hcaps) (by simpa [boundsOk] using hbd) (by simpa [emitNode] using hcode)
-        (by simpa [emitNode] using hext) i T S C s hwf hT he
-  | .loop lzy lo hi c, a, tb, pat, ht, _, _, _, _, _, _, i, T, S, C, s, _, _, _ => by
-    simp [tier, maxTier] at ht; omega
-  | .capture g n c, a, tb, pat, ht, hp, hok, hcaps, hbd, hcode, hext, i, T, S, C, s, hwf, hT, he => by
+        (by simpa [emitNode] using hext) i T S v C s hwf he
+  | .loop lzy lo hi c, d, a, tb, pat, ht, hp, hok, hcaps, hbd, hcode, hext, i, T, S, v, C, s, hwf, he => by
+    simp only [toPat] at hp
+    cases hpc : toPat W.TPx d c with
+    | none => rw [hpc] at hp; cases hp
+    | some pc =>
+      rw [hpc] at hp
+      simp only [Option.map_some, Option.some.injEq] at hp
+      subst hp
+      simp only [emitNode] at hcode hext
+      simp only [boundsOk, Bool.and_eq_true, decide_eq_true_eq] at hbd
+      obtain ⟨⟨⟨h0, hmn⟩, hnm⟩, hbc⟩ := hbd
+      simp only [tier, Nat.max_le] at ht
+      have hn : W.X.se.n < 2147483647 := W.hlenS ht.1
+      have := gloopnode_delivers W.hrel hn (sz := size W.cfg c) (f := m W.X.se pc d) (d := d) h0 hmn hnm hcode
+        (emitNode_size _ _ _ _) (fun st st' h => m_dir _ pc d st st' h)
+        (fun st hst st' h => m_wf _ pc d st hst st' h)
+        (fun p C' T' S' v' s' hwf' he' => node_delivers c d (a + loopHeadLen lo hi) tb pc ht.2 hpc
+          (by simpa [GoNode.ok] using hok) (by simpa [capsOk] using hcaps) hbc (loop_body_codeAt hcode) hext p T' S' v' C' s'
+          hwf' he') hwf he
+      refine this.cast (by simp only [size]; omega) ?_
+      simp only [m]
+  | .capture g n c, d, a, tb, pat, ht, hp, hok, hcaps, hbd, hcode, hext, i, T, S, v, C, s, hwf, he => by
     simp only [toPat] at hp
     split at hp
     · next hc =>
       simp only [Bool.and_eq_true, beq_iff_eq, decide_eq_true_eq] at hc
       obtain ⟨hn, hg0⟩ := hc
       subst hn
-      cases hpc : toPat W.TPx false c with
+      cases hpc : toPat W.TPx d c with
       | none => rw [hpc] at hp; cases hp
       | some pc =>
         rw [hpc] at hp
@@ -301,66 +378,72 @@ theorem node_delivers : ∀ (n : GoNode) (a : Nat) (tb : Tables) (pat : Pat),
         have hslt : W.X.sl g.toNat < W.X.p.capsize := by omega
         rw [← hsl] at hcode
         have := capture_delivers W (g := g.toNat) (sz := size W.cfg c) hcode (emitNode_size _ _ _ _) hslt he
-          (rs := m W.X.se pc false ⟨i, C⟩) (fun s1 he1 =>
-            node_delivers c (a + 1) tb pc (by simpa [tier] using ht) hpc (by simpa [GoNode.ok] using hok) hcaps.2
-              (by simpa [boundsOk] using hbd) ((hcode.left').right.cast (by simp) rfl) hext i _ _ C s1 hwf
-              (by simp) he1)
+          (rs := m W.X.se pc d ⟨i, C⟩) (fun s1 he1 =>
+            node_delivers c d (a + 1) tb pc (by simpa [tier] using ht) hpc (by simpa [GoNode.ok] using hok) hcaps.2
+              (by simpa [boundsOk] using hbd) ((hcode.left').right.cast (by simp) rfl) hext i ((a : Int) :: T) _ v C s1 hwf
+              he1)
         refine this.cast (by simp only [size, hec, if_true]; omega) ?_
         simp only [m]
     · cases hp
-  | .group c, a, tb, pat, ht, hp, hok, hcaps, hbd, hcode, hext, i, T, S, C, s, hwf, hT, he => by
+  | .group c, d, a, tb, pat, ht, hp, hok, hcaps, hbd, hcode, hext, i, T, S, v, C, s, hwf, he => by
     simp only [toPat] at hp
     simp only [emitNode] at hcode hext
     simp only [size]
-    exact node_delivers c a tb pat (by simpa [tier] using ht) hp (by simpa [GoNode.ok] using hok)
-      (by simpa [capsOk] using hcaps) (by simpa [boundsOk] using hbd) hcode hext i T S C s hwf hT he
-  | .poslook c, a, tb, pat, ht, hp, hok, hcaps, hbd, hcode, hext, i, T, S, C, s, hwf, hT, he => by
-    simp only [tier] at ht
-    split at ht
-    · next hdir =>
-      have hdir' : lookDir c = some false := by simpa using hdir
-      simp only [toPat, hdir'] at hp
-      cases hpc : toPat W.TPx false c with
-      | none => rw [hpc] at hp; cases hp
-      | some pc =>
-        rw [hpc] at hp
-        simp only [Option.map_some, Option.some.injEq] at hp
-        subst hp
-        simp only [emitNode] at hcode hext
-        have := poslook_delivers (sz := size W.cfg c) (rs := m W.X.se pc false ⟨i, C⟩) W.hrel hwf.1 hT hcode
-          (emitNode_size _ _ _ _) he (fun r hr => m_caps_ext W.X.se pc false ⟨i, C⟩ r hr)
-          (fun s1 he1 => node_delivers c (a + 2) tb pc (by simp only [Nat.max_le] at ht; exact ht.2) hpc
-            (by simpa [GoNode.ok] using hok) (by simpa [capsOk] using hcaps) (by simpa [boundsOk] using hbd)
-            ((hcode.left').right.cast (by simp) rfl) hext i _ _ C s1 hwf (by simp) he1)
-        refine this.cast (by simp only [size]; omega) ?_
-        simp only [m]
-        cases m W.X.se pc false ⟨i, C⟩ <;> simp [posLookRes]
-    · simp only [maxTier, Nat.max_le] at ht; omega
-  | .neglook c, a, tb, pat, ht, hp, hok, hcaps, hbd, hcode, hext, i, T, S, C, s, hwf, hT, he => by
-    simp only [tier] at ht
-    split at ht
-    · next hdir =>
-      have hdir' : lookDir c = some false := by simpa using hdir
-      simp only [toPat, hdir'] at hp
-      cases hpc : toPat W.TPx false c with
-      | none => rw [hpc] at hp; cases hp
-      | some pc =>
-        rw [hpc] at hp
-        simp only [Option.map_some, Option.some.injEq] at hp
-        subst hp
-        simp only [emitNode] at hcode hext
-        have := neglook_delivers (sz := size W.cfg c) (rs := m W.X.se pc false ⟨i, C⟩) hT hcode
-          (emitNode_size _ _ _ _) he (fun r hr => m_caps_ext W.X.se pc false ⟨i, C⟩ r hr)
-          (fun s1 he1 => node_delivers c (a + 3) tb pc (by simp only [Nat.max_le] at ht; exact ht.2) hpc
-            (by simpa [GoNode.ok] using hok) (by simpa [capsOk] using hcaps) (by simpa [boundsOk] using hbd)
-            ((hcode.left').right.cast (by simp) rfl) hext i _ _ C s1 hwf (by simp) he1)
-        refine this.cast (by simp only [size]; omega) ?_
-        simp only [m]
-        cases m W.X.se pc false ⟨i, C⟩ <;> simp [negLookRes]
-    · simp only [maxTier, Nat.max_le] at ht; omega
-  | .atomic c, a, tb, pat, ht, hp, hok, hcaps, hbd, hcode, hext, i, T, S, C, s, hwf, hT, he => by
+    exact node_delivers c d a tb pat (by simpa [tier] using ht) hp (by simpa [GoNode.ok] using hok)
+      (by simpa [capsOk] using hcaps) (by simpa [boundsOk] using hbd) hcode hext i T S v C s hwf he
+  | .poslook c, d, a, tb, pat, ht, hp, hok, hcaps, hbd, hcode, hext, i, T, S, v, C, s, hwf, he => by
+    have htc : tier c ≤ W.k := by
+      simp only [tier] at ht
+      split at ht <;> (simp only [Nat.max_le] at ht; exact ht.2)
     simp only [toPat] at hp
-    cases hpc : toPat W.TPx false c with
+    cases hdir : lookDir c with
+    | none => rw [hdir] at hp; cases hp
+    | some b =>
+      rw [hdir] at hp
+      simp only at hp
+      cases hpc : toPat W.TPx b c with
+      | none => rw [hpc] at hp; cases hp
+      | some pc =>
+        rw [hpc] at hp
+        simp only [Option.map_some, Option.some.injEq] at hp
+        subst hp
+        simp only [emitNode] at hcode hext
+        have := poslook_delivers (sz := size W.cfg c) (rs := m W.X.se pc b ⟨i, C⟩) W.hrel hwf.1 hcode
+          (emitNode_size _ _ _ _) he (fun r hr => m_caps_ext W.X.se pc b ⟨i, C⟩ r hr)
+          (fun s1 he1 => node_delivers c b (a + 2) tb pc htc hpc
+            (by simpa [GoNode.ok] using hok) (by simpa [capsOk] using hcaps) (by simpa [boundsOk] using hbd)
+            ((hcode.left').right.cast (by simp) rfl) hext i (((a + 1 : Nat) : Int) :: (a : Int) :: T) _ v C s1 hwf he1)
+        refine this.cast (by simp only [size]; omega) ?_
+        simp only [m]
+        cases m W.X.se pc b ⟨i, C⟩ <;> simp [posLookRes]
+  | .neglook c, d, a, tb, pat, ht, hp, hok, hcaps, hbd, hcode, hext, i, T, S, v, C, s, hwf, he => by
+    have htc : tier c ≤ W.k := by
+      simp only [tier] at ht
+      split at ht <;> (simp only [Nat.max_le] at ht; exact ht.2)
+    simp only [toPat] at hp
+    cases hdir : lookDir c with
+    | none => rw [hdir] at hp; cases hp
+    | some b =>
+      rw [hdir] at hp
+      simp only at hp
+      cases hpc : toPat W.TPx b c with
+      | none => rw [hpc] at hp; cases hp
+      | some pc =>
+        rw [hpc] at hp
+        simp only [Option.map_some, Option.some.injEq] at hp
+        subst hp
+        simp only [emitNode] at hcode hext
+        have := neglook_delivers (sz := size W.cfg c) (rs := m W.X.se pc b ⟨i, C⟩) hcode
+          (emitNode_size _ _ _ _) he (fun r hr => m_caps_ext W.X.se pc b ⟨i, C⟩ r hr)
+          (fun s1 he1 => node_delivers c b (a + 3) tb pc htc hpc
+            (by simpa [GoNode.ok] using hok) (by simpa [capsOk] using hcaps) (by simpa [boundsOk] using hbd)
+            ((hcode.left').right.cast (by simp) rfl) hext i (((a + 1 : Nat) : Int) :: (i : Int) :: (a : Int) :: T) _ v C s1 hwf he1)
+        refine this.cast (by simp only [size]; omega) ?_
+        simp only [m]
+        cases m W.X.se pc b ⟨i, C⟩ <;> simp [negLookRes]
+  | .atomic c, d, a, tb, pat, ht, hp, hok, hcaps, hbd, hcode, hext, i, T, S, v, C, s, hwf, he => by
+    simp only [toPat] at hp
+    cases hpc : toPat W.TPx d c with
     | none => rw [hpc] at hp; cases hp
     | some pc =>
       rw [hpc] at hp
@@ -368,40 +451,193 @@ theorem node_delivers : ∀ (n : GoNode) (a : Nat) (tb : Tables) (pat : Pat),
       subst hp
       simp only [emitNode] at hcode hext
       simp only [tier, Nat.max_le] at ht
-      have := atomic_delivers (sz := size W.cfg c) (rs := m W.X.se pc false ⟨i, C⟩) hT hcode
-        (emitNode_size _ _ _ _) he (fun r hr => m_caps_ext W.X.se pc false ⟨i, C⟩ r hr)
-        (fun s1 he1 => node_delivers c (a + 1) tb pc ht.2 hpc
+      have := atomic_delivers (sz := size W.cfg c) (rs := m W.X.se pc d ⟨i, C⟩) hcode
+        (emitNode_size _ _ _ _) he (fun r hr => m_caps_ext W.X.se pc d ⟨i, C⟩ r hr)
+        (fun s1 he1 => node_delivers c d (a + 1) tb pc ht.2 hpc
           (by simpa [GoNode.ok] using hok) (by simpa [capsOk] using hcaps) (by simpa [boundsOk] using hbd)
-          ((hcode.left').right.cast (by simp) rfl) hext i _ _ C s1 hwf (by simp) he1)
+          ((hcode.left').right.cast (by simp) rfl) hext i ((a : Int) :: T) _ v C s1 hwf he1)
       refine this.cast (by simp only [size]; omega) ?_
       simp only [m]
-  | .backrefcond1 g y, a, tb, pat, ht, _, _, _, _, _, _, i, T, S, C, s, _, _, _ => by
-    simp [tier, maxTier] at ht; omega
-  | .backrefcond2 g y n, a, tb, pat, ht, _, _, _, _, _, _, i, T, S, C, s, _, _, _ => by
-    simp [tier, maxTier] at ht; omega
-  | .exprcond2 c y, a, tb, pat, ht, _, _, _, _, _, _, i, T, S, C, s, _, _, _ => by
-    simp [tier, maxTier] at ht; omega
-  | .exprcond3 c y n, a, tb, pat, ht, _, _, _, _, _, _, i, T, S, C, s, _, _, _ => by
-    simp [tier, maxTier] at ht; omega
-  | .other t, a, tb, pat, ht, _, _, _, _, _, _, i, T, S, C, s, _, _, _ => by simp [tier, maxTier] at ht
+  | .backrefcond1 g y, d, a, tb, pat, ht, hp, hok, hcaps, hbd, hcode, hext, i, T, S, v, C, s, hwf, he => by
+    simp only [toPat] at hp
+    simp only [tier, Nat.max_le] at ht
+    split at hp
+    · next hg0 =>
+      cases hpy : toPat W.TPx d y with
+      | none => rw [hpy] at hp; cases hp
+      | some py =>
+        rw [hpy] at hp
+        simp only [Option.map_some, Option.some.injEq] at hp
+        subst hp
+        simp only [emitNode] at hcode hext
+        simp only [capsOk, Bool.and_eq_true] at hcaps
+        have hslot := slotOk_iff.1 hcaps.1
+        have hsl : mapCapnum W.cfg g = ((g.toNat : Nat) : Int) := by
+          have h1 := W.hsl g.toNat
+          rw [W.hid ht.1] at h1
+          have : ((g.toNat : Nat) : Int) = g := by omega
+          rw [this] at h1
+          have h2 : (mapCapnum W.cfg g).toNat = g.toNat := h1.symm
+          omega
+        rw [hsl] at hcode
+        have hcy : CodeAt W.X.p (a + 6) (emitNode W.cfg (a + 6) tb y).1 :=
+          ((hcode.left').right).cast (by simp [codeLen]) rfl
+        have := backrefcond_delivers (szy := size W.cfg y) (szn := 0) (ycode := (emitNode W.cfg (a + 6) tb y).1) (ncode := [])
+          (rsY := m W.X.se py d ⟨i, C⟩)
+          (rsN := [⟨i, C⟩]) (W.hid ht.1) (g := g.toNat) (by omega) (hcode.cast rfl (by simp)) (emitNode_size _ _ _ _) rfl he
+          (fun _ s1 he1 => node_delivers y d (a + 6) tb py ht.2 hpy (by simpa [GoNode.ok] using hok) hcaps.2
+            (by simpa [boundsOk] using hbd) hcy hext i _ S v C s1 hwf he1)
+          (fun _ s1 he1 => Delivers.single (v := v) (Leads.here (by simpa using he1)) rfl)
+        refine this.cast (by simp only [size]; omega) ?_
+        simp only [m]
+    · cases hp
+  | .backrefcond2 g y n, d, a, tb, pat, ht, hp, hok, hcaps, hbd, hcode, hext, i, T, S, v, C, s, hwf, he => by
+    simp only [toPat] at hp
+    simp only [tier, Nat.max_le] at ht
+    split at hp
+    · next hg0 =>
+      cases hpy : toPat W.TPx d y with
+      | none => rw [hpy] at hp; simp at hp
+      | some py =>
+        cases hpn : toPat W.TPx d n with
+        | none => rw [hpy, hpn] at hp; simp at hp
+        | some pn =>
+          rw [hpy, hpn] at hp
+          simp only [Option.some.injEq] at hp
+          subst hp
+          simp only [emitNode] at hcode hext
+          simp only [capsOk, Bool.and_eq_true] at hcaps
+          simp only [GoNode.ok, Bool.and_eq_true] at hok
+          simp only [boundsOk, Bool.and_eq_true] at hbd
+          have hslot := slotOk_iff.1 hcaps.1.1
+          have hsl : mapCapnum W.cfg g = ((g.toNat : Nat) : Int) := by
+            have h1 := W.hsl g.toNat
+            rw [W.hid ht.1] at h1
+            have : ((g.toNat : Nat) : Int) = g := by omega
+            rw [this] at h1
+            have h2 : (mapCapnum W.cfg g).toNat = g.toNat := h1.symm
+            omega
+          rw [hsl] at hcode
+          have hcy : CodeAt W.X.p (a + 6) (emitNode W.cfg (a + 6) tb y).1 :=
+            (((hcode.left').left').right).cast (by simp [codeLen]) rfl
+          have hcn : CodeAt W.X.p (a + 6 + size W.cfg y + 3)
+              (emitNode W.cfg (a + 6 + size W.cfg y + 3) (emitNode W.cfg (a + 6) tb y).2 n).1 := by
+            have := hcode.right
+            simp only [codeLen_append, emitNode_size] at this
+            exact this.cast (by simp [codeLen] <;> omega) rfl
+          have hexty : TabExt (emitNode W.cfg (a + 6) tb y).2 W.fin := (emitNode_ext W.cfg n _ _).trans hext
+          have := backrefcond_delivers (szy := size W.cfg y) (szn := size W.cfg n) (rsY := m W.X.se py d ⟨i, C⟩)
+            (rsN := m W.X.se pn d ⟨i, C⟩) (W.hid ht.1) (g := g.toNat) (by omega) hcode (emitNode_size _ _ _ _)
+            (emitNode_size _ _ _ _) he
+            (fun _ s1 he1 => node_delivers y d (a + 6) tb py ht.2.1 hpy hok.1 hcaps.1.2 hbd.1 hcy hexty i _ S v C s1 hwf he1)
+            (fun _ s1 he1 => node_delivers n d (a + 6 + size W.cfg y + 3) _ pn ht.2.2 hpn hok.2 hcaps.2 hbd.2 hcn hext i _ S v C s1
+              hwf he1)
+          refine this.cast (by simp only [size]; omega) ?_
+          simp only [m]
+    · cases hp
+  | .exprcond2 c y, d, a, tb, pat, ht, hp, hok, hcaps, hbd, hcode, hext, i, T, S, v, C, s, hwf, he => by
+    simp only [toPat] at hp
+    simp only [tier, Nat.max_le] at ht
+    cases hpc : toPat W.TPx d c with
+    | none => rw [hpc] at hp; simp at hp
+    | some pc =>
+      cases hpy : toPat W.TPx d y with
+      | none => rw [hpc, hpy] at hp; simp at hp
+      | some py =>
+        rw [hpc, hpy] at hp
+        simp only [Option.some.injEq] at hp
+        subst hp
+        simp only [emitNode] at hcode hext
+        simp only [capsOk, Bool.and_eq_true] at hcaps
+        simp only [GoNode.ok, Bool.and_eq_true] at hok
+        simp only [boundsOk, Bool.and_eq_true] at hbd
+        have hcc : CodeAt W.X.p (a + 4) (emitNode W.cfg (a + 4) tb c).1 :=
+          (((((hcode.left').left').left').right)).cast (by simp [codeLen]) rfl
+        have hcy : CodeAt W.X.p (a + 4 + size W.cfg c + 2)
+            (emitNode W.cfg (a + 4 + size W.cfg c + 2) (emitNode W.cfg (a + 4) tb c).2 y).1 := by
+          have := (hcode.left').right
+          simp only [codeLen_append, emitNode_size] at this
+          exact this.cast (by simp [codeLen] <;> omega) rfl
+        have hextc : TabExt (emitNode W.cfg (a + 4) tb c).2 W.fin := (emitNode_ext W.cfg y _ _).trans hext
+        have := exprcond_delivers (szc := size W.cfg c) (szy := size W.cfg y) (szn := 0) (ccode := (emitNode W.cfg (a + 4) tb c).1)
+          (ycode := (emitNode W.cfg (a + 4 + size W.cfg c + 2) (emitNode W.cfg (a + 4) tb c).2 y).1) (ncode := [])
+          (rsC := m W.X.se pc d ⟨i, C⟩) (rsY := fun r => m W.X.se py d ⟨i, r.caps⟩) (rsN := [⟨i, C⟩]) W.hrel hwf.1
+          (hcode.cast rfl (by simp)) (emitNode_size _ _ _ _) (emitNode_size _ _ _ _) rfl he
+          (fun r hr => m_caps_ext W.X.se pc d ⟨i, C⟩ r hr)
+          (fun s1 he1 => node_delivers c d (a + 4) tb pc ht.2.1 hpc hok.1 hcaps.1 hbd.1 hcc hextc i _ _ v C s1 hwf he1)
+          (fun r hr s1 v1 he1 => node_delivers y d (a + 4 + size W.cfg c + 2) _ py ht.2.2 hpy hok.2 hcaps.2 hbd.2 hcy hext i _ S v1
+            r.caps s1 ⟨hwf.1, (m_wf W.X.se pc d ⟨i, C⟩ hwf r (List.mem_of_mem_head? hr)).2⟩ he1)
+          (fun _ s1 v1 he1 => Delivers.single (v := v1) (Leads.here (by simpa using he1)) rfl)
+        refine this.cast (by simp only [size]; omega) ?_
+        simp only [m]
+        cases m W.X.se pc d ⟨i, C⟩ <;> rfl
+  | .exprcond3 c y n, d, a, tb, pat, ht, hp, hok, hcaps, hbd, hcode, hext, i, T, S, v, C, s, hwf, he => by
+    simp only [toPat] at hp
+    simp only [tier, Nat.max_le] at ht
+    cases hpc : toPat W.TPx d c with
+    | none => rw [hpc] at hp; simp at hp
+    | some pc =>
+      cases hpy : toPat W.TPx d y with
+      | none => rw [hpc, hpy] at hp; simp at hp
+      | some py =>
+        cases hpn : toPat W.TPx d n with
+        | none => rw [hpc, hpy, hpn] at hp; simp at hp
+        | some pn =>
+          rw [hpc, hpy, hpn] at hp
+          simp only [Option.some.injEq] at hp
+          subst hp
+          simp only [emitNode] at hcode hext
+          simp only [capsOk, Bool.and_eq_true] at hcaps
+          simp only [GoNode.ok, Bool.and_eq_true] at hok
+          simp only [boundsOk, Bool.and_eq_true] at hbd
+          have hcc : CodeAt W.X.p (a + 4) (emitNode W.cfg (a + 4) tb c).1 :=
+            ((((((hcode.left').left').left').left').right)).cast (by simp [codeLen]) rfl
+          have hcy : CodeAt W.X.p (a + 4 + size W.cfg c + 2)
+              (emitNode W.cfg (a + 4 + size W.cfg c + 2) (emitNode W.cfg (a + 4) tb c).2 y).1 := by
+            have := ((hcode.left').left').right
+            simp only [codeLen_append, emitNode_size] at this
+            exact this.cast (by simp [codeLen] <;> omega) rfl
+          have hcn : CodeAt W.X.p (a + 4 + size W.cfg c + 2 + size W.cfg y + 4)
+              (emitNode W.cfg (a + 4 + size W.cfg c + 2 + size W.cfg y + 4)
+                (emitNode W.cfg (a + 4 + size W.cfg c + 2) (emitNode W.cfg (a + 4) tb c).2 y).2 n).1 := by
+            have := hcode.right
+            simp only [codeLen_append, emitNode_size] at this
+            exact this.cast (by simp [codeLen] <;> omega) rfl
+          have hexty : TabExt (emitNode W.cfg (a + 4 + size W.cfg c + 2) (emitNode W.cfg (a + 4) tb c).2 y).2 W.fin :=
+            (emitNode_ext W.cfg n _ _).trans hext
+          have hextc : TabExt (emitNode W.cfg (a + 4) tb c).2 W.fin := (emitNode_ext W.cfg y _ _).trans hexty
+          have := exprcond_delivers (szc := size W.cfg c) (szy := size W.cfg y) (szn := size W.cfg n)
+            (rsC := m W.X.se pc d ⟨i, C⟩) (rsY := fun r => m W.X.se py d ⟨i, r.caps⟩)
+            (rsN := m W.X.se pn d ⟨i, C⟩) W.hrel hwf.1 hcode (emitNode_size _ _ _ _) (emitNode_size _ _ _ _)
+            (emitNode_size _ _ _ _) he (fun r hr => m_caps_ext W.X.se pc d ⟨i, C⟩ r hr)
+            (fun s1 he1 => node_delivers c d (a + 4) tb pc ht.2.1 hpc hok.1.1 hcaps.1.1 hbd.1.1 hcc hextc i _ _ v C s1 hwf he1)
+            (fun r hr s1 v1 he1 => node_delivers y d (a + 4 + size W.cfg c + 2) _ py ht.2.2.1 hpy hok.1.2 hcaps.1.2 hbd.1.2 hcy
+              hexty i _ S v1 r.caps s1 ⟨hwf.1, (m_wf W.X.se pc d ⟨i, C⟩ hwf r (List.mem_of_mem_head? hr)).2⟩ he1)
+            (fun _ s1 v1 he1 => node_delivers n d (a + 4 + size W.cfg c + 2 + size W.cfg y + 4) _ pn ht.2.2.2 hpn hok.2 hcaps.2 hbd.2
+              hcn hext i _ S v1 C s1 hwf he1)
+          refine this.cast (by simp only [size]; omega) ?_
+          simp only [m]
+          cases m W.X.se pc d ⟨i, C⟩ <;> rfl
+  | .other t, d, a, tb, pat, ht, _, _, _, _, _, _, i, T, S, v, C, s, _, _ => by
+    have ht := Nat.le_trans ht hWk; simp [tier, maxTier] at ht
 /-- `Concatenate`: the children one after the other -/
-theorem list_delivers : ∀ (cs : List GoNode) (a : Nat) (tb : Tables) (ps : List Pat),
-    tierList cs ≤ maxTier → toPatList W.TPx false cs = some ps → okList cs = true →
+theorem list_delivers : ∀ (cs : List GoNode) (d : Bool) (a : Nat) (tb : Tables) (ps : List Pat),
+    tierList cs ≤ W.k → toPatList W.TPx d cs = some ps → okList cs = true →
     capsOkList W.cfg W.X.p.capsize cs = true → boundsOkList cs = true →
     CodeAt W.X.p a (emitList W.cfg a tb cs).1 → TabExt (emitList W.cfg a tb cs).2 W.fin →
-    ∀ (i : Nat) (T S : List Int) (C : List (Nat × Nat × Nat)) (s : VMState), St.wf W.X.se.n ⟨i, C⟩ → T ≠ [] →
-      Entry W.X a i T S C s → Delivers W.X (a + sizeList W.cfg cs) T S S C (m W.X.se (nestSeq ps) false ⟨i, C⟩) s
-  | [], a, tb, ps, _, hp, _, _, _, _, _, i, T, S, C, s, _, _, he => by
+    ∀ (i : Nat) (T S : List Int) (v : Int) (C : List (Nat × Nat × Nat)) (s : VMState), St.wf W.X.se.n ⟨i, C⟩ →
+      Entry W.X a i (T ++ [v]) S C s → Delivers W.X (a + sizeList W.cfg cs) T S S C (seqList W.X.se d ps ⟨i, C⟩) s
+  | [], d, a, tb, ps, _, hp, _, _, _, _, _, i, T, S, v, C, s, _, he => by
     simp only [toPatList, Option.some.injEq] at hp
     subst hp
-    simp only [sizeList, Nat.add_zero, nestSeq, nest, m]
-    exact Delivers.single (Leads.here he) rfl
-  | c :: cs, a, tb, ps, ht, hp, hok, hcaps, hbd, hcode, hext, i, T, S, C, s, hwf, hT, he => by
+    simp only [sizeList, Nat.add_zero, seqList]
+    exact Delivers.single (v := v) (Leads.here he) rfl
+  | c :: cs, d, a, tb, ps, ht, hp, hok, hcaps, hbd, hcode, hext, i, T, S, v, C, s, hwf, he => by
     simp only [toPatList] at hp
-    cases hpc : toPat W.TPx false c with
+    cases hpc : toPat W.TPx d c with
     | none => rw [hpc] at hp; cases hp
     | some pc =>
-      cases hps : toPatList W.TPx false cs with
+      cases hps : toPatList W.TPx d cs with
       | none => rw [hpc, hps] at hp; cases hp
       | some ps' =>
         rw [hpc, hps] at hp
@@ -413,30 +649,30 @@ theorem list_delivers : ∀ (cs : List GoNode) (a : Nat) (tb : Tables) (ps : Lis
         simp only [tierList, Nat.max_le] at ht
         simp only [emitList] at hcode hext
         have hext1 : TabExt (emitNode W.cfg a tb c).2 W.fin := (emitList_ext W.cfg cs _ _).trans hext
-        have h1 := node_delivers c a tb pc ht.1 hpc hok.1 hcaps.1 hbd.1 hcode.left' hext1 i T S C s hwf hT he
-        rw [m_nestSeq_cons]
+        have h1 := node_delivers c d a tb pc ht.1 hpc hok.1 hcaps.1 hbd.1 hcode.left' hext1 i T S v C s hwf he
+        rw [seqList]
         have hcode2 : CodeAt W.X.p (a + size W.cfg c) (emitList W.cfg (a + size W.cfg c) (emitNode W.cfg a tb c).2 cs).1 :=
           hcode.right.cast (by rw [emitNode_size]) rfl
         refine (Delivers.bind (X := W.X) (b := a + size W.cfg c + sizeList W.cfg cs) _ s h1 ?_).cast
           (by simp only [sizeList]; omega) rfl
-        intro r hr F s' hF he'
-        have hwf' := m_wf W.X.se pc false ⟨i, C⟩ hwf r hr
-        exact list_delivers cs (a + size W.cfg c) _ ps' ht.2 hps hok.2 hcaps.2 hbd.2 hcode2 hext r.pos (F ++ T) S r.caps s'
-          hwf' (by simp [hT]) he'
+        intro r hr F s' v' hF he'
+        have hwf' := m_wf W.X.se pc d ⟨i, C⟩ hwf r hr
+        exact list_delivers cs d (a + size W.cfg c) _ ps' ht.2 hps hok.2 hcaps.2 hbd.2 hcode2 hext r.pos (F ++ T) S v' r.caps s'
+          hwf' he'
 /-- `Alternate`: `Lazybranch next; ⟨branch⟩; Goto end` for every branch but the last -/
-theorem alt_delivers : ∀ (cs : List GoNode) (a fin : Nat) (tb : Tables) (ps : List Pat), cs ≠ [] →
-    fin = a + sizeAlt W.cfg cs → tierList cs ≤ maxTier → toPatList W.TPx false cs = some ps → okList cs = true →
+theorem alt_delivers : ∀ (cs : List GoNode) (d : Bool) (a fin : Nat) (tb : Tables) (ps : List Pat), cs ≠ [] →
+    fin = a + sizeAlt W.cfg cs → tierList cs ≤ W.k → toPatList W.TPx d cs = some ps → okList cs = true →
     capsOkList W.cfg W.X.p.capsize cs = true → boundsOkList cs = true →
     CodeAt W.X.p a (emitAlt W.cfg a fin tb cs).1 → TabExt (emitAlt W.cfg a fin tb cs).2 W.fin →
-    ∀ (i : Nat) (T S : List Int) (C : List (Nat × Nat × Nat)) (s : VMState), St.wf W.X.se.n ⟨i, C⟩ → T ≠ [] →
-      Entry W.X a i T S C s → Delivers W.X fin T S S C (m W.X.se (nestAlt ps) false ⟨i, C⟩) s
-  | [], a, fin, tb, ps, hne, _, _, _, _, _, _, _, _, i, T, S, C, s, _, _, _ => absurd rfl hne
-  | c :: cs, a, fin, tb, ps, _, hfin, ht, hp, hok, hcaps, hbd, hcode, hext, i, T, S, C, s, hwf, hT, he => by
+    ∀ (i : Nat) (T S : List Int) (v : Int) (C : List (Nat × Nat × Nat)) (s : VMState), St.wf W.X.se.n ⟨i, C⟩ →
+      Entry W.X a i (T ++ [v]) S C s → Delivers W.X fin T S S C (m W.X.se (nestAlt ps) d ⟨i, C⟩) s
+  | [], d, a, fin, tb, ps, hne, _, _, _, _, _, _, _, _, i, T, S, C, s, _, _, _ => absurd rfl hne
+  | c :: cs, d, a, fin, tb, ps, _, hfin, ht, hp, hok, hcaps, hbd, hcode, hext, i, T, S, v, C, s, hwf, he => by
     simp only [toPatList] at hp
-    cases hpc : toPat W.TPx false c with
+    cases hpc : toPat W.TPx d c with
     | none => rw [hpc] at hp; cases hp
     | some pc =>
-      cases hps : toPatList W.TPx false cs with
+      cases hps : toPatList W.TPx d cs with
       | none => rw [hpc, hps] at hp; cases hp
       | some ps' =>
         rw [hpc, hps] at hp
@@ -454,8 +690,8 @@ theorem alt_delivers : ∀ (cs : List GoNode) (a fin : Nat) (tb : Tables) (ps : 
           simp only [sizeAlt, List.isEmpty_nil, if_true] at hfin
           subst hfin
           simp only [nestAlt, nest]
-          exact node_delivers c a tb pc ht.1 hpc hok.1 hcaps.1 hbd.1 hcode hext i T S C s hwf hT he
-        | cons d ds =>
+          exact node_delivers c d a tb pc ht.1 hpc hok.1 hcaps.1 hbd.1 hcode hext i T S v C s hwf he
+        | cons d0 ds =>
           rw [emitAlt_cons_cons] at hcode hext
           rw [sizeAlt_cons_cons] at hfin
           simp only at hcode hext
@@ -473,7 +709,7 @@ theorem alt_delivers : ∀ (cs : List GoNode) (a fin : Nat) (tb : Tables) (ps : 
             exact this.cast (by simp; omega) rfl
           have hgo := hc3.instr
           have hc4 : CodeAt W.X.p (a + 2 + size W.cfg c + 2)
-              (emitAlt W.cfg (a + 2 + size W.cfg c + 2) fin (emitNode W.cfg (a + 2) tb c).2 (d :: ds)).1 := by
+              (emitAlt W.cfg (a + 2 + size W.cfg c + 2) fin (emitNode W.cfg (a + 2) tb c).2 (d0 :: ds)).1 := by
             have := hcode.right
             simp only [codeLen_append, emitNode_size] at this
             exact this.cast (by simp; omega) rfl
@@ -488,18 +724,18 @@ theorem alt_delivers : ∀ (cs : List GoNode) (a fin : Nat) (tb : Tables) (ps : 
           obtain ⟨s1, hr1, he1⟩ := lazybranch_leads he hlb hf2
           refine Delivers.of_reach hr1 ?_
           have hfr : Framed W.X.p [(a : Int), (i : Int)] := lazybranch_frame hlb _
-          refine Delivers.append (Sm := S) (C1 := C) (F := [(a : Int), (i : Int)]) hfr (m W.X.se pc false ⟨i, C⟩) s1 ?_ ?_
-          · have hn := node_delivers c (a + 2) tb pc ht.1 hpc hok.1 hcaps.1 hbd.1 hc2 hext1 i
-              ([(a : Int), (i : Int)] ++ T) S C s1 hwf (by simp) (by simpa using he1)
+          refine Delivers.append (Sm := S) (C1 := C) (F := [(a : Int), (i : Int)]) hfr (m W.X.se pc d ⟨i, C⟩) s1 ?_ ?_
+          · have hn := node_delivers c d (a + 2) tb pc ht.1 hpc hok.1 hcaps.1 hbd.1 hc2 hext1 i
+              ([(a : Int), (i : Int)] ++ T) S v C s1 hwf (by simpa using he1)
             have := Delivers.bind (X := W.X) (b := fin) (S' := S) (g := fun r => [r]) _ s1 hn ?_
             · rwa [flatMap_singleton_id] at this
-            · intro r _ F s' _ he'
-              exact Delivers.single (goto_leads he' hgo hffin) rfl
-          · intro s'' hf
-            obtain ⟨s2, hr2, he2⟩ := lazybranch_back (by simpa using hf) hlb hfnext
+            · intro r _ F s' v' _ he'
+              exact Delivers.single (v := v') (goto_leads he' hgo hffin) rfl
+          · intro s'' v' hf
+            obtain ⟨s2, hr2, he2⟩ := lazybranch_back (T := T ++ [v']) (by simpa using hf) hlb hfnext
             refine Delivers.of_reach hr2 ?_
-            exact alt_delivers (d :: ds) (a + 2 + size W.cfg c + 2) fin _ ps' (by simp) (by rw [hfin]; omega) ht.2 hps
-              hok.2 hcaps.2 hbd.2 hc4 hext i T S C s2 hwf hT he2
+            exact alt_delivers (d0 :: ds) d (a + 2 + size W.cfg c + 2) fin _ ps' (by simp) (by rw [hfin]; omega) ht.2 hps
+              hok.2 hcaps.2 hbd.2 hc4 hext i T S v' C s2 hwf he2
 end
 
 end main
